@@ -334,6 +334,7 @@ func (ck *Check) dispatch(msg any, mergeChan chan todo) {
 		} else if len(tablesWritten) == 0 {
 			msg.ret <- true
 		} else {
+			verifPoint("commit.checked", msg.t)
 			msg.t.commit()
 			msg.ret <- true
 			mergeChan <- todo{tables: tablesWritten, meta: msg.t.meta}
